@@ -398,6 +398,10 @@ impl Ctx {
                         }
                     }
                     "text" => bytes = b"not a key at all \xe9\xff".to_vec(),
+                    dmg @ ("empty_bitstring" | "only_unused_octet" | "nonzero_unused" | "empty_oid" | "empty_algid" | "long_form_length"
+                    | "empty_octets" | "nested_empty") => {
+                        bytes = degenerate_der(form, dmg, &base);
+                    }
                     _ => bytes = base.iter().cycle().take(1 << 20).cloned().collect(),
                 }
                 let res = key_import_all(&bytes);
@@ -405,6 +409,62 @@ impl Ctx {
             }
         }
         json!({"calls": calls})
+    }
+}
+
+fn der_tlv(tag: u8, body: &[u8]) -> Vec<u8> {
+    let mut v = vec![tag];
+    if body.len() < 0x80 {
+        v.push(body.len() as u8);
+    } else if body.len() < 0x100 {
+        v.extend([0x81, body.len() as u8]);
+    } else {
+        v.extend([0x82, (body.len() >> 8) as u8, body.len() as u8]);
+    }
+    v.extend(body);
+    v
+}
+
+/// structurally valid DER / PEM / JSON key documents whose inner fields are degenerate
+fn degenerate_der(form: &str, dmg: &str, base: &[u8]) -> Vec<u8> {
+    let oid: &[u8] = match form {
+        "spki_rsa" | "pem" | "pkcs8_rsa" | "pubkey_json" => &[0x2a, 0x86, 0x48, 0x86, 0xf7, 0x0d, 0x01, 0x01, 0x01],
+        "spki_ecdsa" | "pkcs8_ecdsa" | "raw_ecdsa" => &[0x2a, 0x86, 0x48, 0xce, 0x3d, 0x02, 0x01],
+        _ => &[0x2b, 0x65, 0x70],
+    };
+    let params: Vec<u8> = match form {
+        "spki_rsa" | "pem" | "pkcs8_rsa" | "pubkey_json" => vec![0x05, 0x00],
+        "spki_ecdsa" | "pkcs8_ecdsa" | "raw_ecdsa" => der_tlv(0x06, &[0x2a, 0x86, 0x48, 0xce, 0x3d, 0x03, 0x01, 0x07]),
+        _ => vec![],
+    };
+    let algid = |o: &[u8]| der_tlv(0x30, &[der_tlv(0x06, o), params.clone()].concat());
+    let spki = match dmg {
+        "empty_bitstring" => der_tlv(0x30, &[algid(oid), vec![0x03, 0x00]].concat()),
+        "only_unused_octet" => der_tlv(0x30, &[algid(oid), vec![0x03, 0x01, 0x00]].concat()),
+        "nonzero_unused" => der_tlv(0x30, &[algid(oid), vec![0x03, 0x02, 0x07, 0x80]].concat()),
+        "empty_oid" => der_tlv(0x30, &[der_tlv(0x30, &[vec![0x06, 0x00], params.clone()].concat()), vec![0x03, 0x02, 0x00, 0x01]].concat()),
+        "empty_algid" => der_tlv(0x30, &[vec![0x30, 0x00], vec![0x03, 0x02, 0x00, 0x01]].concat()),
+        "long_form_length" => {
+            let mut v = vec![0x30, 0x84, 0x00, 0x00, 0x00, 0x09];
+            v.extend(algid(oid));
+            v.extend([0x03, 0x00]);
+            v
+        }
+        "empty_octets" => der_tlv(0x30, &[vec![0x02, 0x01, 0x00], algid(oid), vec![0x04, 0x00]].concat()),
+        _ => der_tlv(0x30, &der_tlv(0x30, &der_tlv(0x30, &[]))),
+    };
+    match form {
+        "pem" => crate::c12::pem_of_spki(&spki).into_bytes(),
+        "pubkey_json" => {
+            let pem = crate::c12::pem_of_spki(&spki);
+            serde_json::to_vec(&json!({"keytype": "rsa", "scheme": "rsassa-pss-sha256", "keyid_hash_algorithms": ["sha256", "sha512"],
+                                       "keyval": {"public": pem}})).unwrap()
+        }
+        "keyid_str" | "sig_hex" | "raw_ed25519" | "raw_ecdsa" => {
+            let _ = base;
+            data_encoding::HEXLOWER.encode(&spki).into_bytes()
+        }
+        _ => spki,
     }
 }
 
@@ -492,6 +552,17 @@ pub fn mutate(n: usize) -> Value {
         crate::wire::pred_doc(&["builder".into(), "buildType".into(), "metadata".into(), "materials".into()], "list", "Z").to_string().into_bytes(),
         br#"{"_type":"https://in-toto.io/Statement/v0.1","subject":{},"predicateType":"https://in-toto.io/Link/v0.2","predicate":{"name":"","materials":{},"env":null,"command":[],"byproducts":{}}}"#.to_vec(),
     ];
+    let rsa = load("rsa2048-256", 0);
+    let ec = load("ecdsa", 0);
+    let mut seeds = seeds;
+    seeds.push(crate::c12::ed25519_spki(ctx.km.pk("k1").as_bytes()));
+    seeds.push(crate::c12::rsa_spki(rsa.public().as_bytes()));
+    seeds.push(crate::c12::ecdsa_spki(ec.public().as_bytes()));
+    seeds.push(crate::c12::pem_of_spki(&crate::c12::rsa_spki(rsa.public().as_bytes())).into_bytes());
+    seeds.push(raw_der("ed25519", 0).to_vec());
+    seeds.push(raw_der("ecdsa", 0).to_vec());
+    seeds.push(serde_json::to_vec(rsa.public()).unwrap());
+    let n_doc_seeds = 7;
     let mut bad = vec![];
     let mut counts = [0usize; 3];
     for i in 0..n {
@@ -536,7 +607,7 @@ pub fn mutate(n: usize) -> Value {
             }
         }
         let r = offer_bytes(&ctx, &b);
-        let r2 = if i % 4 == 0 { key_import_all(&b) } else { "error" };
+        let r2 = if i % seeds.len() >= n_doc_seeds || i % 4 == 0 { key_import_all(&b) } else { "error" };
         for x in [r, r2] {
             match x {
                 "value" => counts[0] += 1,
